@@ -439,6 +439,56 @@ func c14ReorgFacts(o *out, files []*c14File, prefix string) {
 			return true
 		})
 	}
+	// order of the key statements of Reorg (top-level statements, defers skipped)
+	var order []string
+	commitIdx, unhaltIdx := -1, -1
+	if fd != nil {
+		for _, st := range fd.Body.List {
+			if _, ok := st.(*ast.DeferStmt); ok {
+				continue
+			}
+			kind := ""
+			ast.Inspect(st, func(n ast.Node) bool {
+				c, ok := n.(*ast.CallExpr)
+				if !ok {
+					return true
+				}
+				s, ok := c.Fun.(*ast.SelectorExpr)
+				if !ok {
+					return true
+				}
+				switch s.Sel.Name {
+				case "Exec":
+					if len(c.Args) > 0 {
+						if bl, ok := c.Args[0].(*ast.BasicLit); ok && strings.Contains(bl.Value, "DELETE FROM block") {
+							kind = "delete_blocks"
+						}
+					}
+				case "RowsAffected":
+					kind = "rows_affected"
+				case "Reorg":
+					kind = "tree_reorg"
+				case "Commit":
+					kind = "commit"
+				case "UnhaltIfAffectedRows":
+					kind = "unhalt"
+				}
+				return true
+			})
+			if kind != "" {
+				if kind == "commit" && commitIdx < 0 {
+					commitIdx = len(order)
+				}
+				if kind == "unhalt" && unhaltIdx < 0 {
+					unhaltIdx = len(order)
+				}
+				order = append(order, kind)
+			}
+		}
+	}
+	o.f("Definition %s_reorg_statement_order : list string := %s.\n", prefix, c14strList(order))
+	o.f("Definition %s_reorg_unhalt_after_commit : bool := %s. (* UnhaltIfAffectedRows is called only after tx.Commit() succeeded *)\n",
+		prefix, c14bool(commitIdx >= 0 && unhaltIdx > commitIdx))
 	o.f("Definition %s_reorg_unhalt_call : string := %s.\n", prefix, c14q(call))
 	o.f("Definition %s_reorg_unhalt_call_unconditional : bool := %s. (* a top-level statement of Reorg *)\n", prefix, c14bool(toplevel))
 	o.f("Definition %s_reorg_rows_source : string := %s.\n", prefix, c14q(rowsSrc))
